@@ -891,6 +891,10 @@ func serialRule(c *core.Ctx, rel, typ, meth, entryMeth string) {
 		return
 	}
 	pos := c.Prog.Pos(m.Pos())
+	if applicable, why := presizedSerial(c, fn, entryMeth); applicable {
+		c.Decide(why == "", "C16-SERIAL", key, pos, "pre-sized: total = sum of 4+length over the receiver, one copy of entry."+entryMeth+"() per entry at a cursor from 0, the buffer returned", why)
+		return
+	}
 	var ranges []*ssa.Range
 	var emitRange *ssa.Range // the range loop whose entries are appended
 	var appends int
@@ -1545,4 +1549,240 @@ func rangedEntry(v ssa.Value) *ssa.Range {
 		}
 	}
 	return nil
+}
+
+// presizedSerial recognises the pre-sized form of a serialiser:
+//
+//	total := 0; for _, e := range m { total += 4 + int(e.length) }        // or len(e.Bytes())
+//	b := make([]byte, total); off := 0
+//	for _, e := range m { off += copy(b[off:], e.Bytes()) }
+//	return b
+//
+// The buffer is exactly as long as the entries' encodings together (every encoding is 4 + length octets: C16-WIDTH
+// #size), the cursor starts at 0 and advances by what was copied, every entry of the same unmodified map is copied once,
+// and the buffer itself is returned. "" if it matches; applicable is false if the function has no such shape at all.
+func presizedSerial(c *core.Ctx, fn *ssa.Function, entryMeth string) (applicable bool, bad string) {
+	p := prover.New(fn)
+	loops := p.Loops()
+	if len(loops) != 2 || len(fn.Params) != 1 {
+		return false, ""
+	}
+	recv := ssa.Value(fn.Params[0])
+	var ms *ssa.MakeSlice
+	for _, b := range fn.Blocks {
+		for _, ins := range b.Instrs {
+			if x, ok := ins.(*ssa.MakeSlice); ok {
+				if ms != nil {
+					return false, ""
+				}
+				ms = x
+			}
+		}
+	}
+	if ms == nil {
+		return false, ""
+	}
+	rangeOf := func(l *prover.Loop) *ssa.Range {
+		// the Range instruction feeding the Next of this loop's header
+		for _, ins := range l.Header.Instrs {
+			if nx, ok := ins.(*ssa.Next); ok {
+				if rg, ok := nx.Iter.(*ssa.Range); ok {
+					return rg
+				}
+			}
+		}
+		return nil
+	}
+	r1, r2 := rangeOf(loops[0]), rangeOf(loops[1])
+	if r1 == nil || r2 == nil {
+		return false, ""
+	}
+	if r1.X != recv || r2.X != recv {
+		return true, "the two loops of the pre-sized serialiser do not both range over the receiver"
+	}
+	// loop 1: total
+	var total *ssa.Phi
+	for _, ins := range loops[0].Header.Instrs {
+		ph, ok := ins.(*ssa.Phi)
+		if !ok || !isIntType(ph.Type()) {
+			continue
+		}
+		total = ph
+	}
+	if total == nil {
+		return false, ""
+	}
+	if d := p.LinOf(ms.Len).Add(p.LinOf(total), -1); !d.IsConst() || d.C != 0 {
+		return true, "the buffer is not made with the total computed by the sizing loop"
+	}
+	entryOf := func(v ssa.Value, rg *ssa.Range) bool { return rangedEntry(v) == rg }
+	for i, pred := range loops[0].Header.Preds {
+		e := total.Edges[i]
+		if !loops[0].Blocks[pred] {
+			if k, ok := constInt(e); !ok || k != 0 {
+				return true, "the size total does not start at 0"
+			}
+			continue
+		}
+		add, ok := e.(*ssa.BinOp)
+		if !ok || add.Op != token.ADD {
+			return true, "the size total is not increased by addition"
+		}
+		// total + (4 + int(entry.length))  |  total + len(entry.Bytes())
+		var inc ssa.Value
+		if add.X == ssa.Value(total) {
+			inc = add.Y
+		} else if add.Y == ssa.Value(total) {
+			inc = add.X
+		} else if inner, isB := add.X.(*ssa.BinOp); isB && inner.Op == token.ADD && (inner.X == ssa.Value(total) || inner.Y == ssa.Value(total)) {
+			// (total + 4) + int(length)
+			inc = nil
+			rest := inner.X
+			if inner.X == ssa.Value(total) {
+				rest = inner.Y
+			}
+			k, isK := constInt(rest)
+			if !isK || k != 4 || !isEntryLength(add.Y, r1) {
+				return true, "the size added per entry is not 4 + the entry's length"
+			}
+			continue
+		} else {
+			return true, "the size total is not `total + size of the entry`"
+		}
+		okInc := false
+		if call, isC := inc.(*ssa.Call); isC {
+			if bi, isB := call.Call.Value.(*ssa.Builtin); isB && bi.Name() == "len" {
+				if ec, isEC := call.Call.Args[0].(*ssa.Call); isEC && ec.Call.StaticCallee() != nil && ec.Call.StaticCallee().Name() == entryMeth && entryOf(ec.Call.Args[0], r1) {
+					okInc = true
+				}
+			}
+		}
+		if b2, isB := inc.(*ssa.BinOp); isB && b2.Op == token.ADD {
+			for _, pair := range [][2]ssa.Value{{b2.X, b2.Y}, {b2.Y, b2.X}} {
+				if k, isK := constInt(pair[0]); isK && k == 4 && isEntryLength(pair[1], r1) {
+					okInc = true
+				}
+			}
+		}
+		if !okInc {
+			return true, "the size added per entry is neither 4 + int(entry.length) nor len(entry." + entryMeth + "())"
+		}
+	}
+	// loop 2: off += copy(b[off:], entry.Bytes())
+	var off *ssa.Phi
+	for _, ins := range loops[1].Header.Instrs {
+		ph, ok := ins.(*ssa.Phi)
+		if !ok || !isIntType(ph.Type()) {
+			continue
+		}
+		off = ph
+	}
+	if off == nil {
+		return true, "no copy cursor in the filling loop"
+	}
+	var cp *ssa.Call
+	for b := range loops[1].Blocks {
+		for _, ins := range b.Instrs {
+			call, ok := ins.(*ssa.Call)
+			if !ok {
+				continue
+			}
+			if bi, isB := call.Call.Value.(*ssa.Builtin); isB && bi.Name() == "copy" {
+				if cp != nil {
+					return true, "several copies per entry"
+				}
+				cp = call
+			}
+		}
+	}
+	if cp == nil {
+		return true, "the filling loop copies nothing"
+	}
+	dst, okD := cp.Call.Args[0].(*ssa.Slice)
+	if !okD || dst.X != ssa.Value(ms) || dst.High != nil || dst.Low != ssa.Value(off) {
+		return true, "the entry is not copied to b[cursor:]"
+	}
+	src, okS := cp.Call.Args[1].(*ssa.Call)
+	if !okS || src.Call.StaticCallee() == nil || src.Call.StaticCallee().Name() != entryMeth || !entryOf(src.Call.Args[0], r2) {
+		return true, "what is copied is not entry." + entryMeth + "() of the ranged entry"
+	}
+	for _, lt := range loops[1].Latches {
+		if !cp.Block().Dominates(lt) {
+			return true, "an entry can be skipped (the copy does not dominate the back edge)"
+		}
+	}
+	for i, pred := range loops[1].Header.Preds {
+		e := off.Edges[i]
+		if !loops[1].Blocks[pred] {
+			if k, ok := constInt(e); !ok || k != 0 {
+				return true, "the copy cursor does not start at 0"
+			}
+			continue
+		}
+		add, ok := e.(*ssa.BinOp)
+		if !ok || add.Op != token.ADD || !((add.X == ssa.Value(off) && add.Y == ssa.Value(cp)) || (add.Y == ssa.Value(off) && add.X == ssa.Value(cp))) {
+			// off + len(enc) with enc the copied slice is the same advance
+			return true, "the copy cursor does not advance by the number of octets copied"
+		}
+	}
+	// the buffer is used for nothing else and returned
+	if ms.Referrers() != nil {
+		for _, r := range *ms.Referrers() {
+			switch x := r.(type) {
+			case *ssa.Slice:
+				if x != dst {
+					return true, "the buffer is sliced elsewhere"
+				}
+			case *ssa.Return, *ssa.DebugRef, *ssa.Phi:
+			default:
+				return true, "the buffer is used by " + r.String()
+			}
+		}
+	}
+	for _, b := range fn.Blocks {
+		if ret, ok := b.Instrs[len(b.Instrs)-1].(*ssa.Return); ok {
+			if len(ret.Results) != 1 || ret.Results[0] != ssa.Value(ms) {
+				return true, "the serialiser does not return the buffer it filled"
+			}
+		}
+	}
+	return true, ""
+}
+
+// isEntryLength: v is int(entry.length) of the entry ranged by rg.
+func isEntryLength(v ssa.Value, rg *ssa.Range) bool {
+	v = stripConv(v)
+	// the range value spilled to its loop variable: a load of &local.length, the local written only with the ranged entry
+	if ld, isLd := v.(*ssa.UnOp); isLd && ld.Op == token.MUL {
+		if fa, isFA := ld.X.(*ssa.FieldAddr); isFA {
+			al, isAl := fa.X.(*ssa.Alloc)
+			if !isAl || al.Referrers() == nil {
+				return false
+			}
+			st, _ := al.Type().Underlying().(*types.Pointer).Elem().Underlying().(*types.Struct)
+			if st == nil || st.Field(fa.Field).Name() != "length" {
+				return false
+			}
+			n, good := 0, true
+			for _, r := range *al.Referrers() {
+				if stt, isSt := r.(*ssa.Store); isSt && stt.Addr == ssa.Value(al) {
+					n++
+					if rangedEntry(stt.Val) != rg || !(stt.Block() == ld.Block() || stt.Block().Dominates(ld.Block())) {
+						good = false
+					}
+				}
+			}
+			return n == 1 && good
+		}
+		return false
+	}
+	f, ok := v.(*ssa.Field)
+	if !ok {
+		return false
+	}
+	st, _ := f.X.Type().Underlying().(*types.Struct)
+	if st == nil || st.Field(f.Field).Name() != "length" {
+		return false
+	}
+	return rangedEntry(f.X) == rg
 }
